@@ -157,10 +157,14 @@ def _task(task):
     for j, item in enumerate(task["items"]):
         try:
             with case_alarm(120):
-                doc = make_doc(item)
+                # the space system's name rotates: none at all, the usual one, one of five others (what is written for one definition does not
+                # depend on what was written for another)
+                import dataclasses
+                doc_name = (None, "S", f"M{j % 5}")[(j + task["base"]) % 3]
+                doc = dataclasses.replace(make_doc(item), name=doc_name)
                 for style in (STYLES if (j + task["base"]) % 4 == 0 or item[0] == "trees" else (STYLES[(j + task["base"]) % 5],)) if item[0] != "extra" else (STYLES[(j + task["base"]) % 5], "xtce")[:1 + (j % 2)]:
                     for via in ("xml", "objects"):
-                        case = {"family": item[0], "item": item[1], "style": style, "via": via, "use_write_xml": (j + task["base"]) % 4 == 0}
+                        case = {"family": item[0], "item": item[1], "style": style, "via": via, "use_write_xml": (j + task["base"]) % 4 == 0, "doc_name": doc_name}
                         try:
                             defn = load_doc(doc, style) if via == "xml" else build_objects(doc, style)
                         except Exception as e:  # noqa: BLE001
@@ -248,7 +252,7 @@ def run(ctx):
         "exhaustive": True,
         "bound": (f"{len(items)} documents of the C09 family (palette kinds alone / ordered pairs, container trees, the attribute-coverage families) x namespace configurations "
                   "{prefix xtce, upper-case prefix XTCE, default namespace, none} and the XTCE prefix among five unrelated namespace declarations (all five for every fourth document and all trees, one rotating otherwise) x "
-                  "{loaded from XML, built from objects}; 3 write/load cycles each; the last definitions (one per namespace convention and origin, up to three) are written once more after every later document was loaded and cycled; a sample re-serialized in two subprocesses with different PYTHONHASHSEED"),
+                  "{loaded from XML, built from objects}; space system names rotating through none / the usual one / five others; 3 write/load cycles each; the last definitions (one per namespace convention and origin, up to three) are written once more after every later document was loaded and cycled; a sample re-serialized in two subprocesses with different PYTHONHASHSEED"),
         "rule": ("one evaluation = one document/config taken through G1..G4; states = distinct serializations reached; transitions = write and load "
                  "steps; traces = complete cycles compared"),
     }
@@ -256,8 +260,8 @@ def run(ctx):
             "assumptions": ["header date fixed in every document", "stock lxml parser defines well-formedness"]}
 
 
-def replay(case):
-    t = Tally()
+def _rebuild(case):
+    import dataclasses
     item = (case["family"], case["item"])
     if case["family"] == "palette":
         item = ("palette", (tuple(case["item"][0]), case["item"][1]))
@@ -270,8 +274,22 @@ def replay(case):
         spec["crits"] = tuple(spec["crits"])
         item = ("trees", spec)
     doc = make_doc(item)
-    defn = load_doc(doc, case["style"]) if case["via"] == "xml" else build_objects(doc, case["style"])
-    cycle_check(t, defn, case, set())
+    if "doc_name" in case:
+        doc = dataclasses.replace(doc, name=case["doc_name"])
+    return load_doc(doc, case["style"]) if case["via"] == "xml" else build_objects(doc, case["style"])
+
+
+def replay(case):
+    t = Tally()
+    if "first" in case:
+        # W(A), load and cycle B, W(A) again
+        a = _rebuild(case["first"])
+        g1 = W(a)
+        cycle_check(t, _rebuild(case["then"]), case["then"], set())
+        if W(a) != g1:
+            return {"sig": {"kind": "write-depends-on-other-loads", "style_then": case["first"]["style"], "style_between": case["then"]["style"]}, "case": case}
+        return t.violations[0] if t.violations else None
+    cycle_check(t, _rebuild(case), case, set())
     return t.violations[0] if t.violations else None
 
 
